@@ -554,6 +554,10 @@ class Frame:
                 it = ast.unparse(s.iter)
                 if it == "self.callbacks":
                     continue  # callback-free instance
+                if isinstance(s.iter, ast.Call) and isinstance(s.iter.func, ast.Name) and s.iter.func.id == "range" and len(s.iter.args) == 1 and not s.orelse:
+                    self.run_for_range(s, blk)
+                    self.cur = blk
+                    continue
                 raise Unsupported(f"for loop over {it}")
             if isinstance(s, ast.If):
                 if self.run_if(s, rest, blk):
@@ -571,6 +575,53 @@ class Frame:
                 continue
             raise Unsupported(f"statement {type(s).__name__}: {ast.unparse(s)[:80]}")
         return False
+
+    def run_for_range(self, s, blk):
+        """`for _ in range(n): body` -> iter_res (Z.to_nat n) (fun carried => body) carried0.
+        The loop variable must be unused; the carried state is what the body modifies (found by a dry run)."""
+        if not (isinstance(s.target, ast.Name)):
+            raise Unsupported("for target")
+        lv = s.target.id
+        for st in s.body:
+            for nd in ast.walk(st):
+                if isinstance(nd, ast.Name) and nd.id == lv:
+                    raise Unsupported("the loop variable is used in the body")
+        if self._has_return(s.body) or any(isinstance(nd, (ast.Break, ast.Continue)) for st in s.body for nd in ast.walk(st)):
+            raise Unsupported("return / break / continue inside a for loop")
+        n = self.ev(s.iter.args[0])
+        if n.ty != INT:
+            raise Unsupported("range of a non-int")
+        # dry run: which variables / fields does the body modify?
+        dry = self.fork()
+        b0 = Block()
+        if dry.run(s.body, b0):
+            raise Unsupported("loop body terminates")
+        paths = self.modified([dry])
+        for p in list(paths):
+            if p[0] == "local" and self.get_path(p) is None:
+                paths.remove(p)  # a local first bound inside the body is not carried
+        if not paths:
+            return
+        pre = [self.get_path(p) for p in paths]
+        post0 = [dry.get_path(p) for p in paths]
+        tys = [join(a.ty, b_.ty) for a, b_ in zip(pre, post0)]
+        carried = [self.tr.name(p[-1].strip("_").replace(".", "_") + "_") for p in paths]
+        body_fr = self.fork()
+        for p, nm, t in zip(paths, carried, tys):
+            body_fr.set_path(p, V(nm, t))
+        bb = Block()
+        if body_fr.run(s.body, bb):
+            raise Unsupported("loop body terminates")
+        post = [coerce(body_fr.get_path(p), t).e for p, t in zip(paths, tys)]
+        tup = lambda xs: xs[0] if len(xs) == 1 else "(" + ", ".join(xs) + ")"
+        pat = carried[0] if len(carried) == 1 else "'(" + ", ".join(carried) + ")"
+        fn = f"(fun {pat} =>\n" + bb.render_with("Ok " + (tup(post) if len(post) > 1 else f"({post[0]})")) + ")"
+        out = [self.tr.name(p[-1].strip("_").replace(".", "_") + "_") for p in paths]
+        opat = out[0] if len(out) == 1 else "'(" + ", ".join(out) + ")"
+        init = tup([coerce(v, t).e for v, t in zip(pre, tys)])
+        blk.do(opat, f"iter_res (Z.to_nat {n.e}) {fn} {init}")
+        for p, nm, t in zip(paths, out, tys):
+            self.set_path(p, V(nm, t))
 
     @staticmethod
     def _as_load(t):
@@ -955,6 +1006,15 @@ class Frame:
                     return v
                 raise Unsupported("string subscript")
             l, i = self.ev(n.value, allow_dict=True), self.ev(n.slice)
+            if isinstance(l, O):
+                d = self.tr.find(l.cls, "__getitem__")
+                if d and self.is_pure_inline(d[1]):
+                    sub = Frame(self.tr, l, d[0], d[1], l.cls, "__getitem__", self.discover)
+                    sub.cur = self.cur
+                    pn = [a.arg for a in d[1].args.args if a.arg != "self"][0]
+                    sub.env[pn] = i
+                    return self.eval_pure_body(sub, d[1])
+                raise Unsupported("subscript of an object")
             if isinstance(l, tuple) and l[0] == "classdict" and isinstance(i, V) and i.ty == INT and all(isinstance(x, ast.Lambda) for x in l[2]):
                 return ("lambdasel", i, l[1], l[2])
             if isinstance(l, V) and isinstance(l.ty, tuple) and l.ty[0] == "list" and i.ty == INT and isinstance(l.ty[1], tuple) and l.ty[1][0] == "opt":
@@ -1465,7 +1525,13 @@ class Frame:
             a = self.ev(vals[pn])
             if isinstance(a, O):
                 raise Unsupported("object argument")
-            argv.append(coerce(a, self.tr.subst(pt, recv.elt)).e)
+            want = self.tr.subst(pt, recv.elt)
+            if isinstance(a.ty, tuple) and a.ty[0] == "opt" and a.ty[1] == want and self._typechecks_first(fn, pn):
+                # a possibly-None value handed to a method that starts with `if not isinstance(param, ...): raise TypeError`
+                nm = self.tr.name(pn + "_")
+                blk.do(nm, f"(match {a.e} with Some y_ => Ok y_ | None => Raise TypeError end)")
+                a = V(nm, want)
+            argv.append(coerce(a, want).e)
         newo, pat = self.tr.fresh_obj(recv.cls, recv.elt)
         rty = self.tr.subst(rty, recv.elt)
         r = self.tr.name("r_")
@@ -1474,6 +1540,15 @@ class Frame:
         recv.fields.clear()
         recv.fields.update(newo.fields)
         return V(r, rty) if rty != UNIT else None
+
+    def _typechecks_first(self, fn, pname):
+        body = self.tr._body(fn)
+        if not body or not isinstance(body[0], ast.If):
+            return False
+        t = body[0].test
+        ok = (isinstance(t, ast.UnaryOp) and isinstance(t.op, ast.Not) and isinstance(t.operand, ast.Call) and isinstance(t.operand.func, ast.Name)
+              and t.operand.func.id == "isinstance" and isinstance(t.operand.args[0], ast.Name) and t.operand.args[0].id == pname)
+        return ok and len(body[0].body) == 1 and isinstance(body[0].body[0], ast.Raise) and self.exn_name(body[0].body[0].exc) == "TypeError"
 
     def construct(self, clsname, call, blk):
         elt = self.tr.spec.get("elt", {}).get(clsname)
